@@ -502,9 +502,54 @@ fn run(ctx: &ShardCtx, rep: &mut Report) {
     MAX_SHRINK_ITERS.store(400, std::sync::atomic::Ordering::Relaxed);
     pt_run(ctx, rep, "session-peer", ctx.budget(100_000, 4_000_000), case_strategy(), |c, o| case(ctx, c, o));
     pt_run(ctx, rep, "listener", ctx.budget(30_000, 1_500_000), super::c07l::case_strategy(), |c, o| super::c07l::case(c, o));
+    // a transactional listener session (control link acceptor installed): transfers of every kind — declare and
+    // discharge on the control link, transactional posts, plain transfers — count as received frames
+    pt_run(ctx, rep, "txn-listener", ctx.budget(20_000, 1_000_000), txn_listener_strategy(), |c, o| txn_listener_case(c, o));
+}
+
+fn txn_listener_strategy() -> BoxedStrategy<super::c18::CaseR> {
+    (super::c18::case_r_strategy(), prop_oneof![Just(2u32), Just(4), Just(8), Just(64)]).prop_map(|(mut c, w)| {
+        c.window_probe = w;
+        c
+    }).boxed()
+}
+
+fn txn_listener_run(c: &super::c18::CaseR) -> Result<bool, String> {
+    let posts = c.ops.iter().filter(|o| matches!(o, super::c18::OpR::Post { .. })).count();
+    match crate::simnet::run_case(c.tokio_seed, super::c18::run_resource(c)).0 {
+        crate::simnet::CaseEnd::Done(Ok(_)) => Ok(posts > 0),
+        // only the window clause belongs to this property; the transaction semantics are C18's
+        crate::simnet::CaseEnd::Done(Err(e)) if e.starts_with("C07:") => Err(e),
+        crate::simnet::CaseEnd::Done(Err(_)) => Ok(false),
+        crate::simnet::CaseEnd::Hang => Ok(false),
+    }
+}
+
+fn txn_listener_case(c: &super::c18::CaseR, obs: &mut Obs) -> Result<(), String> {
+    match guarded(|| txn_listener_run(c)) {
+        Ok(Ok(nt)) => {
+            obs.class("txn-listener");
+            if nt {
+                obs.nontrivial(c);
+            }
+            Ok(())
+        }
+        Ok(Err(e)) => {
+            obs.signature = Some("txn-listener-next-incoming-id".into());
+            Err(e)
+        }
+        Err(p) => {
+            obs.signature = Some(panic_signature(&p[0]));
+            Err(format!("panic: {}", p.join(" | ")))
+        }
+    }
 }
 
 fn replay(variant: &str, case_json: &Json) -> Result<(), String> {
+    if variant.trim_end_matches("!raw") == "txn-listener" {
+        let c: super::c18::CaseR = serde_json::from_value(case_json.clone()).map_err(|e| format!("bad case: {e}"))?;
+        return txn_listener_run(&c).map(|_| ());
+    }
     if variant.trim_end_matches("!raw") == "listener" {
         let c: super::c07l::Case = serde_json::from_value(case_json.clone()).map_err(|e| format!("bad case: {e}"))?;
         return super::c07l::run_case(&c).map(|_| ());
